@@ -60,9 +60,10 @@ fn gen_struct(rng: &mut Rng, k: usize) -> GenStruct {
             let (mt, mb) = *rng.pick(&[("char", 8u32), ("short", 16), ("int", 32), ("long long", 64), ("void*", 64), ("unsigned char", 8)]);
             // a member-level alignment attribute between bit-field groups: the padding in front of the member is
             // what keeps the later groups where C has them
-            // (not inside packed / pragma-packed records: packed + aligned members is C02's family of findings —
+            // (alignments above 8 are left to C02: padding in front of such a member is its finding pad_blob_inexact;
+            // not inside packed / pragma-packed records: packed + aligned members is C02's family of findings —
             // packed_align_conflict, packedN_misplaces, packed_member_gap — and would drown this property's signal)
-            let al = if !packed && pragma.is_none() && rng.chance(1, 3) { format!(" __attribute__((aligned({})))", rng.pick(&[2u32, 4, 8, 16])) } else { String::new() };
+            let al = if !packed && pragma.is_none() && rng.chance(1, 3) { format!(" __attribute__((aligned({})))", rng.pick(&[2u32, 4, 8])) } else { String::new() };
             body.push_str(&format!("  {mt} m{fi}{al};\n"));
             cursor = (cursor + mb - 1) / mb * mb + mb;
             fi += 1;
